@@ -30,6 +30,15 @@ def obligations(tier):
                                   weight=nn * 20, budget_s=900 if tier == "quick" else 7200, max_paths=200000))
                 obs.append(Ob(f"{spec_name(('ind', name, kw))}/tf={tf}/n={nn}", dict(spec=["ind", name, kw], n=nn, tf=tf, part=("rounded" if name == "TSI" else "all")), INV_UF if name == "ADX" else INV,
                               weight=nn * (20 if name in EXTRA else 1), budget_s=900 if tier == "quick" else 7200, max_paths=200000))
+    # the stored value is the rounding of the defined value: |stored - definition| <= k * 0.5e-4 under the eps rounding model
+    # (k roundings lie between the raw candles and the stored value). Catches logic that consults already rounded
+    # readings as if they were exact (stale window extremes, drifting running sums beyond the allowed slack).
+    for name, kw, w, k in (("HL", dict(period=2), 0, 1), ("HL", dict(period=3), 0, 1), ("donchian", dict(period=2), 1, 2), ("HLA", dict(), 0, 1), ("TR", dict(), 1, 1),
+                           ("WMA", dict(period=2), 1, 1), ("SMA", dict(period=2), 1, None), ("ROC", dict(period=2), 2, 1), ("OBV", dict(), 0, None), ("aroon", dict(period=2), 2, 3)):
+        n = w + (5 if name in ("HL", "donchian", "SMA", "OBV") else 3)
+        if name == "aroon":
+            n = w + 2
+        obs.append(Ob(f"{spec_name(('ind', name, kw))}/definition-within-rounding-slack/n={n}", dict(spec=["ind", name, kw], n=n, tf=None, part="definition", k=k), INV, weight=20, budget_s=300))
     # every numeric reading is rounded to the indicator's round_value decimals: also for other settings than the default
     for name, kw, w in (("SMA", dict(period=2), 1), ("MACD", dict(fast_period=2, slow_period=3, signal_period=2), 3), ("BBANDS", dict(period=2), 2), ("ATR", dict(period=2), 2), ("VWAP", dict(), 0)):
         for rv in (0, 1, 2, 6):
@@ -75,6 +84,18 @@ def run(ctx, P):
             if part != "range":
                 R("stored-value-is-rounded", is_rounded(ctx, x, rv), f"candle {i} field {f}: {x!r}")
     if part == "rounded":
+        return
+    if part == "definition":
+        from harness.defs import expected
+        ref = expected(ctx, name, kw, cs)
+        for i, (g, r) in enumerate(zip(out, ref)):
+            k = P.get("k") or (i + 2)          # running updates (SMA, OBV): one more rounding per step
+            pairs = [(f, g.get(f) if isinstance(g, dict) else None, r[f]) for f in r] if isinstance(r, dict) else [(None, g, r)]
+            for f, gv, rv_ in pairs:
+                if rv_ is None or gv is None:
+                    R(f"definition:none-pattern[{f}]", rv_ is None and gv is None, f"candle {i}: {gv!r} vs {rv_!r}")
+                else:
+                    ctx.close(f"{name}:stored==round(definition) within {P.get('k') or 'i+2'} roundings[{f}]", gv, rv_, k * H)
         return
     ok = lambda *xs: all(x is not None for x in xs)
     for i, r in enumerate(out):
@@ -159,7 +180,7 @@ def run(ctx, P):
 
 
 META = dict(
-    bounds=dict(quick="n = warm-up+4 candles (value-branching indicators +1..3), smallest legal periods, round_value 4 (round_value 0/1/2/6 for the rounded-ness clause on five indicators); base timeframe, and T2 for the non-branching indicators",
+    bounds=dict(quick="n = warm-up+4 candles (value-branching indicators +1..3), smallest legal periods, round_value 4 (round_value 0/1/2/6 for the rounded-ness clause on five indicators); 'stored == round(definition)' within k roundings for HL, Donchian, HLA, TR, WMA, SMA, ROC, OBV, Aroon under the eps model; base timeframe, and T2 for the non-branching indicators",
                 thorough="n+1, periods 2 and 3, T2 for all"),
     stubs=["float arithmetic -> exact real arithmetic", "round -> eps model with grid monotonicity", "max/min/abs -> If-terms", "symbolic denominators assumed non-zero (C09 owns the zero cases)", "ADX: mul/div abstracted during path exploration, exact at assertions"],
     assumptions=["relations between separately rounded stored values are asserted with slack k*0.5e-4 as the property allows", "the rounded-ness check is structural: the stored term must be a round() application (or an int/bool/None)"],
